@@ -125,7 +125,7 @@ PROPS = {
     "C07": {
         "obligation_files": ["Properties/C07.v"],
         "model_files": ['Model/Sym.v', 'Model/Ops.v', 'Corr/Transport.v', 'Corr/RunS.v'],
-        "rule": "stream sym-att (scenario language of coq/Model/Ops.v interpreted on the real library with real HMAC/SHA-256/ChaCha20-Poly1305 and symbolically in Coq): nine assemblies (bearer-added or hand-appended attestations/wrappers, own third-party caveat under own key with spoofed location, copied trusted ticket with own verifier key and self-issued proof, non-proof discharge extended by hand, finalised proof extended by hand, own proof root, relocated genuine discharge) x trusted-key maps {absent, empty, wrong key, several keys, other location, right key}; observable includes the attestations reachable through GetCaveats (wrappers included); observable per Verify = accept/reject, returned caveat identities in order, reachable attestations; every scenario is non-trivial (contains at least one Verify); distinct = distinct scenario term",
+        "rule": "stream sym-att (scenario language of coq/Model/Ops.v interpreted on the real library with real HMAC/SHA-256/ChaCha20-Poly1305 and symbolically in Coq): nine assemblies (bearer-added or hand-appended attestations/wrappers, own third-party caveat under own key with spoofed location, copied trusted ticket with own verifier key and self-issued proof, non-proof discharge extended by hand, finalised proof extended by hand, own proof root, relocated genuine discharge) x trusted-key maps {absent, empty, wrong key, several keys, other location, right key}; observable includes the attestations reachable through GetCaveats (wrappers included); observable per Verify = accept/reject, returned caveat identities in order, reachable attestations; every scenario is non-trivial (contains at least one Verify); distinct = distinct scenario term; wire forms: old-format (two-field nonce) tokens hand-extended with an attestation and presented as arrays and as maps naming the Nonce field twice with three-field decoys (proof set): none is accepted",
         "assumptions": ["symbolic cryptography: HMAC-SHA256, SHA-256, its 16-byte prefix and ChaCha20-Poly1305 are free injective non-invertible constructors, random values are fresh atoms, the attacker is the Dolev-Yao closure; computational soundness and collision probabilities are outside the theorems",
                         "data caveats are abstract in this layer (identity = canonical encoding, attestation flag, wraps-attestation flag); the Go side maps real caveats to identities through their canonical encoding"],
     },
@@ -164,7 +164,7 @@ PROPS = {
                 "stream bundle-hist: headers assembled in random order from a pool of valid, attenuated, undischarged (one and two third parties), wrongly-keyed, unknown-key-id and foreign-location permission tokens, genuine / extraneous / wrongly-signed discharges, non-macaroon and malformed entries (incl. empty elements); histories of 4-12 operations from "
                 "{ParseBundle, ParseBundleWithFilter(KeepAll), AddTokens, Select/Filter with 8 predicates, Verify with a KeyResolver, Validate (3 requests), Header, Len, Count (predicate and non-predicate filters), Attenuate (3 caveat lists incl. a duplicate), Discharge for either third party with the right or a wrong key, Clone, UndischargedThirdPartyTickets, Select/Filter/Count/Any with the non-predicate filters IsMissingDischarge, AllowsAccess (flyio.IsForOrg), WithDischarges (nested), IsEmpty, Error, VerificationCache.Purge}, plus scripted openings (all-or-nothing Discharge, failing Attenuate, one token for several accesses, the bundle of an empty header and its clone); "
                 "the model's verification / clearing / attenuation tables are filled by DIRECT calls (macaroon.Decode+Verify with all discharges of the bundle, CaveatSet.Validate, Decode+Add+String) outside the bundle; implementation-side oracle: after Verify the bundle clears a request iff one of the returned verified sets clears it, and Header() = 'FlyV1 ' + tokens joined in order; "
-                "non-trivial = at least one direct verification was recorded",
+                "non-trivial = at least one direct verification was recorded; oracles: caches of capacity 1-3 against headers with more valid tokens than they hold; non-canonical wire forms of a valid token in a header; bundles sharing a parsed macaroon with spare capacity attenuated in turn",
         "assumptions": ["derived bundles (Select) share token objects with their parent by design: modelled by the heap model (cells for token objects and verification wrappers); the value model's scenarios only read derived bundles and the refinement theorem says when the two agree; locks are C15",
                         "the tokeniser (header string -> typed entries) is C19's model; here entries arrive already typed by the real tokeniser",
                         "map iteration order over third-party locations inside Verify is arbitrary in Go; the model uses caveat order (irrelevant to the result by the C04 theorems)"],
@@ -185,7 +185,7 @@ PROPS = {
                 "stream typed: for every scalar-bodied caveat type, bodies in canonical and non-canonical form (every integer width incl. signed codes and negative values, nil for each field and for the whole body, str/bin interchange, arrays shorter and longer than the field count, map-encoded structs with known, unknown, repeated and non-string keys, wrong shapes, trailing bytes) fed to DecodeCaveats as 92 <type> <body>; the re-encoding of what the library decoded (or its refusal) is compared with the typed lenient decoder model dec_body; "
                 "stream codec: caveats of every registered type with fields on encoding boundaries (0, 127/128, 255/256, 65535/65536, 2^32-1/2^32, 2^63-1/2^63, 2^64-1; negative int64 boundaries; string/byte lengths 0,1,31,32,255,256; maps and slices of 0,1,15,16,17 entries; nil vs empty; nested conditionals; unregistered types with arbitrary msgpack bodies) - "
                 "MarshalMsgpack bytes compared with the model's encoder; whole sets and tokens (both nonce versions); frames the decoder sees (type + body bytes) on encoded sets; Decoder.Skip on well-formed, truncated, mutated and extended msgpack values; JSON round trip (msgpack of the result compared with the model's json_rt); the JSON type field: written for built-in types and for three user-defined types the harness registers at 2^48+7, 2^63+7 and 2^64-2, and read from names, decimal numerals on every width boundary, with leading zeros, out of range, and malformed numerals; "
-                "implementation-side oracles: encoding twice gives the same bytes, decode then re-encode reproduces the bytes, and three non-canonical re-encodings of every generated token (map-encoded structs + full-width ints, full-width ints, trailing bytes) decode to a value that re-encodes to the canonical bytes and verifies with the same verdict; non-trivial = all encode cases, skip cases the library accepts",
+                "implementation-side oracles: encoding twice gives the same bytes, decode then re-encode reproduces the bytes, and three non-canonical re-encodings of every generated token (map-encoded structs + full-width ints, full-width ints, trailing bytes) decode to a value that re-encodes to the canonical bytes and verifies with the same verdict; non-trivial = all encode cases, skip cases the library accepts; tokens sent as maps whose field names repeat (decoy and genuine nonce in both orders, finalised and plain tails): the verdict is the same before and after re-encoding and the proof flag of an accepted token is the signed one; nil / empty key-ids round-trip",
         "assumptions": ["partial: typed lenient decoding of individual fields (width variants, nil-for-zero, str/bin, map-encoded structs, 16/32-bit truncation) is modelled and proved for every caveat type and for whole sets (Model/TypedDec.v, Model/TypedDec2.v); not representable in the model's caveat type and therefore compared after normalisation: a nil versus an empty resource-set map (two library-canonical encodings, each a fixed point); which of two decoders msgpack caches for *CaveatSet depends on whether the process first encoded or first decoded a conditional caveat (model parameter pz, both variants compared)",
                         "encoding/json's text layer is trusted; text fields are ASCII in the generator (valid UTF-8 is a hypothesis of the property)"],
     },
